@@ -174,6 +174,36 @@ def main(tier):
             else:
                 chk.nontrivial.add(cid.encode() + name.encode())
         dist[name] = len(allc)
+    # ---- (1b) every transform on arguments of every size class (0, 1, 20, 32, 33, 64, 65, 72 bytes; valid curve points among the 32/33-byte ones)
+    global TF
+    repl_cmds(rng, 0)           # fills TF from the generated dispatch table
+    import refcrypto as RC
+    pk = RC.ser_pub(RC.mul(7, RC.G)); xk = pk[1:]
+    pool = {0: [b""], 1: [b"\x01", b"\x80"], 20: [bytes(20)], 32: [bytes(32), xk, b"\xff" * 32, (1).to_bytes(32, "big")], 33: [pk, bytes(33), b"\x02" + b"\xff" * 32],
+            64: [bytes(64), xk + xk], 65: [b"\x04" + xk + bytes(32), bytes(65)], 72: [b"\x30\x45" + bytes(70)]}
+    sizes = sorted(pool)
+    grid = []
+    gid = itertools.count(1)
+    for name in TF:
+        for n in (1, 2, 3):
+            combos = list(itertools.product(sizes, repeat=n))
+            for combo in (combos if not q else rng.sample(combos, min(len(combos), 24))):
+                args = ["0x" + rng.choice(pool[k]).hex() for k in combo]
+                grid.append("tf id=z%d name=%s args=%s" % (next(gid), name.encode().hex(), ",".join(a.encode().hex() for a in args)))
+    res = run_impl(grid, "san")
+    st = chk.streams.setdefault("san:tf-size-grid", {"cases": 0, "diffs": 0, "known": 0})
+    st["cases"] += len(grid); chk.evaluations += len(grid); dist["tf-size-grid"] = len(grid)
+    gby = {re.search(r"\bid=(\S+)", c).group(1): c for c in grid}
+    for cid, ls in res.items():
+        if any(" CRASH" in l or "HARNESSFAIL" in l for l in ls):
+            st["diffs"] += 1
+            if st["diffs"] <= 4:
+                c = gby.get(cid, "?")
+                m = re.search(r"name=(\S+) args=(\S+)", c)
+                chk.violation("transform-crash", "a value transform crashed / tripped a sanitizer", {"stream": "tf-size-grid", "case": c[:3000], "variant": "san", "result": ls[:2],
+                              "command": "tf %s %s" % (bytes.fromhex(m.group(1)).decode(), " ".join(bytes.fromhex(a).decode() for a in m.group(2).split(","))) if m else None})
+        else:
+            chk.nontrivial.add(cid.encode() + b"grid")
     # ---- (2) command lines
     cl = cli_cases(rng, 400 if q else 6000)
     def run_cli(t):
